@@ -332,3 +332,66 @@ def growth_history(kind, n):
             S.kids.append(sh.slots[1]); g.emit('chunk 0 1', 'true')
     g.finish()
     return lines + g.lines, expect + g.expect
+
+
+def exhaustive(depth, nslots=3):
+    """every rule-following history of the given length over a small pool (slots 0..nslots-1): integers, indefinite
+    arrays, tags; push / get / tagset / copy / incref / decref.  Returns a list of (lines, expect)."""
+    import copy as _copy
+    out = []
+
+    def moves(sh):
+        ms = []
+        free = [i for i in range(nslots) if sh.slots[i] is None]
+        used = [i for i in range(nslots) if sh.slots[i] is not None]
+        if free:
+            s = free[0]
+            ms += [('int', s), ('arr', s), ('tag', s)]
+            for x in used:
+                ms.append(('incref', s, x))
+                if sh.slots[x].complete(): ms.append(('copy', s, x))
+            for a in used:
+                if sh.slots[a].kind == 'arr': ms.append(('get', s, a, 0))
+                if sh.slots[a].kind == 'tag' and sh.slots[a].kids: ms.append(('tagget', s, a))
+        for a in used:
+            A = sh.slots[a]
+            for x in used:
+                if sh.slots[x].reaches(A): continue
+                if A.kind == 'arr': ms.append(('push', a, x))
+                if A.kind == 'tag' and (not A.kids or free): ms.append(('tagset', a, x))
+        for s in used: ms.append(('decref', s))
+        return ms
+
+    def apply(g, m):
+        sh = g.sh
+        k = m[0]
+        if k == 'int': sh.slots[m[1]] = Obj('leaf', leaf='u8(5)'); sh.reqs += 1; g.emit('int %d 0 8 5' % m[1], 'item')
+        elif k == 'arr': sh.slots[m[1]] = Obj('arr'); sh.reqs += 1; g.emit('arr %d 0 0' % m[1], 'item')
+        elif k == 'tag': sh.slots[m[1]] = Obj('tag', tagn=1); sh.reqs += 1; g.emit('tag %d 1' % m[1], 'item')
+        elif k == 'incref': sh.slots[m[1]] = sh.slots[m[2]]; g.emit('incref %d %d' % (m[1], m[2]), 'item')
+        elif k == 'copy':
+            cp, n = g.copy_obj(sh.slots[m[2]]); sh.slots[m[1]] = cp; sh.reqs += n; g.emit('copy %d %d' % (m[1], m[2]), 'item fresh=1')
+        elif k == 'get':
+            A = sh.slots[m[2]]
+            if A.kids: sh.slots[m[1]] = A.kids[0]; g.emit('get %d %d 0' % (m[1], m[2]), 'item')
+            else: g.emit('get %d %d 0' % (m[1], m[2]), 'NULL')
+        elif k == 'tagget': sh.slots[m[1]] = sh.slots[m[2]].kids[0]; g.emit('tagget %d %d' % (m[1], m[2]), 'item')
+        elif k == 'push': g.do_push(m[1], m[2])
+        elif k == 'tagset':
+            T = sh.slots[m[1]]; s = 0
+            if T.kids:
+                s = [i for i in range(nslots) if sh.slots[i] is None][0]; sh.slots[s] = T.kids[0]
+            T.kids = [sh.slots[m[2]]]; g.emit('tagset %d %d %d' % (m[1], m[2], s), 'done')
+        elif k == 'decref': sh.slots[m[1]] = None; g.emit('decref %d' % m[1], 'done')
+
+    def rec(g, d):
+        if d == 0:
+            g2 = _copy.deepcopy(g); g2.finish()
+            out.append((['HRESET'] + g2.lines, ['reset'] + g2.expect)); return
+        ms = moves(g.sh)
+        if not ms: return rec(g, 0)
+        for m in ms:
+            g2 = _copy.deepcopy(g); apply(g2, m); rec(g2, d - 1)
+
+    rec(Gen(None), depth)
+    return out
